@@ -245,3 +245,113 @@ func isLenZeroTest(v ssa.Value) bool {
 	}
 	return (isLen(bo.X) && isZero(bo.Y)) || (isLen(bo.Y) && isZero(bo.X))
 }
+
+func init() {
+	// key-complete: every field of the options that the search engine reads is read by each
+	// projection that builds the cache key from the options (so requests that differ in anything
+	// that can change the answer never share a key).
+	staticKinds["key-complete"] = func(eng *Engine, id string, s StaticSpec) ([]*StaticResult, []string) {
+		fn, _, err := eng.LookupFunc(s.Args["search"])
+		if err != nil {
+			return nil, []string{err.Error()}
+		}
+		pi := paramIndex(fn, s.Args["param"])
+		if pi < 0 {
+			return nil, []string{fmt.Sprintf("key-complete: %s has no parameter %s", fn, s.Args["param"])}
+		}
+		needed := map[string]bool{}
+		for _, r := range eng.paramFieldReads(fn, pi, map[string]bool{}, 0) {
+			needed[r.field] = true
+		}
+		if len(needed) == 0 {
+			return nil, []string{"key-complete: the search function reads no option field"}
+		}
+		var out []*StaticResult
+		for _, pn := range s.List {
+			pf, _, err := eng.LookupFunc(pn)
+			if err != nil {
+				return nil, []string{err.Error()}
+			}
+			ppi := paramIndex(pf, s.Args["param"])
+			if ppi < 0 {
+				return nil, []string{fmt.Sprintf("key-complete: %s has no parameter %s", pf, s.Args["param"])}
+			}
+			direct := map[string]bool{}
+			for _, r := range eng.paramFieldReads(pf, ppi, map[string]bool{}, 0) {
+				if r.via == "" {
+					direct[r.field] = true
+				}
+			}
+			var missing []string
+			for f := range needed {
+				if !direct[f] {
+					missing = append(missing, f)
+				}
+			}
+			sort.Strings(missing)
+			r := &StaticResult{Name: fmt.Sprintf("key-complete %s / options", fnDisplayName(pf)), Kind: "key-complete",
+				Text: fmt.Sprintf("every option field read by %s (%s) is carried into the cache key by %s", fnDisplayName(fn), strings.Join(keys(needed), ", "), fnDisplayName(pf)), OK: len(missing) == 0}
+			if len(missing) > 0 {
+				r.Detail = "read by the engine but not part of the key: " + strings.Join(missing, ", ")
+			}
+			out = append(out, r)
+		}
+		return out, nil
+	}
+}
+
+func init() {
+	// callers-only: the function is called (statically) from the listed functions only.
+	staticKinds["callers-only"] = func(eng *Engine, id string, s StaticSpec) ([]*StaticResult, []string) {
+		target, _, err := eng.LookupFunc(s.Args["func"])
+		if err != nil {
+			return nil, []string{err.Error()}
+		}
+		allowed := map[*ssa.Function]bool{}
+		for _, n := range s.List {
+			fn, _, err := eng.LookupFunc(n)
+			if err != nil {
+				return nil, []string{err.Error()}
+			}
+			allowed[fn] = true
+		}
+		var bad []string
+		n := 0
+		for _, fn := range eng.fnIndex {
+			if !eng.inRepo(fn) || fn.Blocks == nil {
+				continue
+			}
+			pk, _ := fnKey(fn)
+			if strings.Contains(pk, "/testutil") {
+				continue
+			}
+			for _, b := range fn.Blocks {
+				for _, in := range b.Instrs {
+					c, ok := in.(ssa.CallInstruction)
+					if !ok {
+						continue
+					}
+					callee := c.Common().StaticCallee()
+					if callee == nil || (callee != target && callee.Origin() != target) {
+						continue
+					}
+					n++
+					root := fn
+					for root.Parent() != nil {
+						root = root.Parent()
+					}
+					if !allowed[fn] && !allowed[root] {
+						bad = append(bad, fmt.Sprintf("%s calls it at %s", fnDisplayName(fn), shortPos(eng.fset.Position(in.Pos()).String())))
+					}
+				}
+			}
+		}
+		sort.Strings(bad)
+		r := &StaticResult{Name: fmt.Sprintf("callers %s / only %s", fnDisplayName(target), s.Args["why_short"]), Kind: "callers-only",
+			Text: fmt.Sprintf("%s (%d call sites; allowed callers: %s)", s.Args["why"], n, strings.Join(s.List, ", ")), OK: len(bad) == 0}
+		if len(bad) > 0 {
+			r.Detail = strings.Join(bad, "; ")
+		}
+		return []*StaticResult{r}, nil
+	}
+}
